@@ -274,3 +274,29 @@ def _call_with_timeout(func: Any, kwargs: dict, timeout_s: float) -> Any:
     finally:
         signal.setitimer(signal.ITIMER_REAL, 0)
         signal.signal(signal.SIGALRM, prev)
+
+
+def replay_lemma(con: Contract, kwargs: dict) -> dict:
+    """Native evaluation of a lemma on concrete parameter values: the same clause expressions, evaluated by CPython against the real
+    repository functions they call.  A false `ensures` (or an exception inside a `let`/`ensures`) confirms the counter-model."""
+    g = con.module.__dict__
+    rep: dict = {"target": con.target, "violations": [], "applicable": True, "spec_errors": []}
+    env = dict(kwargs)
+    for c in con.clauses:
+        try:
+            if c.kind == "let":
+                for kw in c.node.keywords:
+                    env[kw.arg] = _Expr(kw.value, g).eval(env)
+            elif c.kind == "requires":
+                if not _Expr(c.arg(0), g).eval(env):
+                    rep["applicable"] = False
+                    rep["note"] = "precondition does not hold on the model"
+                    return rep
+            elif c.kind == "ensures":
+                ex = _Expr(c.arg(0), g)
+                if not ex.eval(env):
+                    rep["violations"].append(repr(Violation(f"lemma:{c.label or c.idx}", f"{ex.text[:120]} is false")))
+        except Exception as e:  # pylint: disable=broad-except
+            rep["violations"].append(repr(Violation(f"lemma:{c.kind}:{c.label or c.idx}", f"raised {type(e).__name__}: {str(e)[:120]}")))
+            return rep
+    return rep
